@@ -24,6 +24,8 @@ def WF : List Pid → List (List Pid) → List Op → Prop
   | s, sv, .inline p _ :: c => current s = some p ∧ WF s sv c     -- the handler of the awaiting code will run in `p`'s scope
   | s, sv, .handler p s0 _ :: c => s = s0 ∧ current s = some p ∧ WF s sv c
   | s, sv, .throw :: c => WF s sv c    -- over-approximation: what follows is well-scoped whether the raise falls through or not
+  | s, sv, .callSoonCreator _ _ :: c => WF s sv c
+  | s, sv, .excepted _ s0 :: c => s = s0 ∧ WF s sv c   -- `callback_excepted` runs on the stack the callback's task started with
 
 /-- operations that user code of `p` may perform inside its scope: no push/pop of its own, samples are `p`'s -/
 def Op.neutral (p : Pid) : Op → Bool
@@ -32,6 +34,7 @@ def Op.neutral (p : Pid) : Op → Bool
   | .obs q _ => q == p
   | .inline q _ => q == p
   | .handler _ _ _ => false
+  | .excepted _ _ => false
   | _ => true
 
 theorem wf_neutral_append {p : Pid} {s : List Pid} {sv : List (List Pid)} (c1 c2 : List Op)
@@ -61,6 +64,8 @@ theorem wf_neutral_append {p : Pid} {s : List Pid} {sv : List (List Pid)} (c1 c2
     | callSoon a b => simpa [WF] using ih'
     | launch a b => simpa [WF] using ih'
     | execute a b => simpa [WF] using ih'
+    | callSoonCreator a b => simpa [WF] using ih'
+    | excepted q s0 => simp [Op.neutral] at hop
 
 theorem wf_hooks_append (p : Pid) (hs : List Hook) {s : List Pid} {sv : List (List Pid)} (c2 : List Op)
     (hh : ∀ h ∈ hs, h.isOutput = false) (h2 : WF s sv c2) : WF s sv (hooksOps p hs ++ c2) := by
@@ -173,6 +178,8 @@ theorem wf_unwind (how : Exit) (c : List Op) : ∀ (d : Nat) (s : List Pid) (sv 
     | launch a b => simp only [WF] at h; simpa [unwind] using ih d _ _ h
     | execute a b => simp only [WF] at h; simpa [unwind] using ih d _ _ h
     | throw => simp only [WF] at h; simpa [unwind] using ih d _ _ h
+    | callSoonCreator a b => simp only [WF] at h; simpa [unwind] using ih d _ _ h
+    | excepted p s0 => simp only [WF] at h; simpa [unwind] using ih d _ _ h.2
 
 /-- skipping the rest of the stepping coroutine of a killed process keeps the code well-scoped -/
 theorem wf_toHandler (c : List Op) : ∀ (d : Nat) (s : List Pid) (sv : List (List Pid)),
@@ -205,10 +212,27 @@ theorem wf_toHandler (c : List Op) : ∀ (d : Nat) (s : List Pid) (sv : List (Li
     | launch a b => simp only [WF] at h; simpa [toHandler] using ih d _ _ h
     | execute a b => simp only [WF] at h; simpa [toHandler] using ih d _ _ h
     | throw => simp only [WF] at h; simpa [toHandler] using ih d _ _ h
+    | callSoonCreator a b => simp only [WF] at h; simpa [toHandler] using ih d _ _ h
+    | excepted p s0 => simp only [WF] at h; simpa [toHandler] using ih d _ _ h.2
 
 theorem wf_cbOps (p : Pid) (code : List Act) (s : List Pid) : WF s [] (cbOps p code) := by
   have := wf_runTask p (codeOps p true code) (s := s) (sv := []) [] (codeOps_neutral p true code) (by simp [WF])
   simpa [cbOps] using this
+
+/-- a callback that ends by raising: well-scoped from any stack `s`, and `callback_excepted` — after the scope was left
+through the exception — runs on exactly `s`, the stack of the code that scheduled it -/
+theorem wf_cbOpsExc (p : Pid) (code : List Act) (s : List Pid) : WF s [] (cbOpsExc p s code) := by
+  simp only [cbOpsExc, WF]
+  apply wf_neutral_append _ _ (codeOps_neutral p true code) (by simp [current])
+  simp only [WF]
+  exact ⟨s, [], rfl, rfl, rfl, rfl⟩
+
+theorem wf_cbCode (scn : Scenario) (p : Pid) (cb : Nat) (code : List Act) (s : List Pid) :
+    WF s [] (cbCode scn p s cb code) := by
+  unfold cbCode
+  split
+  · exact wf_cbOpsExc p code s
+  · exact wf_cbOps p code s
 
 /-! ## The invariant -/
 
@@ -217,6 +241,8 @@ structure Inv (σ : State) : Prop where
   log : ∀ o ∈ σ.log, o.kind.inScope = true → o.cur = some o.owner
   scopes : ∀ x ∈ σ.scopes, x.after = x.before
   joins : ∀ j ∈ σ.joins, j.after = j.before ∧ current j.after = some j.pid
+  cbExcs : ∀ x ∈ σ.cbExcs, x.observed = x.scheduled ∧
+    (⟨x.pid, .hook .callback_excepted, current x.scheduled, x.scheduled, x.tid⟩ : Obs) ∈ σ.log
   noAssert : σ.err ≠ some .scopeAssertion
 
 theorem forall_mem_set {α} {P : α → Prop} {l : List α} {i : Nat} {a : α}
@@ -225,6 +251,20 @@ theorem forall_mem_set {α} {P : α → Prop} {l : List α} {i : Nat} {a : α}
   rcases List.mem_or_eq_of_mem_set hx with h | h
   · exact hl x h
   · exact h ▸ ha
+
+/-- the `callback_excepted` records stay justified when the log only grows -/
+theorem cbExcs_mono {ex : List CbExc} {log log' : List Obs} (hsub : ∀ o ∈ log, o ∈ log')
+    (h : ∀ x ∈ ex, x.observed = x.scheduled ∧
+      (⟨x.pid, .hook .callback_excepted, current x.scheduled, x.scheduled, x.tid⟩ : Obs) ∈ log) :
+    ∀ x ∈ ex, x.observed = x.scheduled ∧
+      (⟨x.pid, .hook .callback_excepted, current x.scheduled, x.scheduled, x.tid⟩ : Obs) ∈ log' :=
+  fun x hx => ⟨(h x hx).1, hsub _ (h x hx).2⟩
+
+theorem mem_logHooks_of_mem (t : Tid) (q : Pid) (stack : List Pid) (hs : List Hook) (log : List Obs) :
+    ∀ o ∈ log, o ∈ logHooks t q stack hs log := by
+  intro o ho
+  simp only [logHooks, List.mem_append]
+  exact Or.inr ho
 
 theorem logHooks_inv (t : Tid) (q : Pid) (stack : List Pid) (hs : List Hook) (log : List Obs)
     (hh : ∀ h ∈ hs, h.isOutput = false)
@@ -236,14 +276,14 @@ theorem logHooks_inv (t : Tid) (q : Pid) (stack : List Pid) (hs : List Hook) (lo
   · simp [Kind.inScope, hh h hh'] at hk
   · exact hl o ho hk
 
-theorem spawnProcess_inv {σ σ' : State} {t u : Tid} {stack : List Pid} {cls : Nat}
-    (h : Inv σ) (hs : spawnProcess σ t stack cls = some (σ', u)) : Inv σ' := by
+theorem spawnProcess_inv {σ σ' : State} {t u : Tid} {stack : List Pid} {cls : Nat} {cr : Option Pid}
+    (h : Inv σ) (hs : spawnProcess σ t stack cls cr = some (σ', u)) : Inv σ' := by
   unfold spawnProcess at hs
   split at hs
   · simp at hs
   · simp only [Option.some.injEq, Prod.mk.injEq] at hs
     obtain ⟨rfl, _⟩ := hs
-    refine ⟨?_, ?_, h.scopes, h.joins, h.noAssert⟩
+    refine ⟨?_, ?_, h.scopes, h.joins, cbExcs_mono (mem_logHooks_of_mem _ _ _ _ _) h.cbExcs, h.noAssert⟩
     · intro T hT
       simp only [List.mem_append, List.mem_singleton] at hT
       rcases hT with hT | rfl
@@ -251,8 +291,8 @@ theorem spawnProcess_inv {σ σ' : State} {t u : Tid} {stack : List Pid} {cls : 
       · exact wf_stepperOps _ _ _
     · exact logHooks_inv _ _ _ _ _ (transitionHooks_lifecycle _ _) h.log
 
-theorem spawnProcess_scn {σ σ' : State} {t u : Tid} {stack : List Pid} {cls : Nat}
-    (hs : spawnProcess σ t stack cls = some (σ', u)) :
+theorem spawnProcess_scn {σ σ' : State} {t u : Tid} {stack : List Pid} {cls : Nat} {cr : Option Pid}
+    (hs : spawnProcess σ t stack cls cr = some (σ', u)) :
     σ'.tasks.length = σ.tasks.length + 1 ∧ u = σ.tasks.length ∧ σ'.callStack = σ.callStack ∧
     (∀ i, i < σ.tasks.length → σ'.tasks[i]? = σ.tasks[i]?) := by
   unfold spawnProcess at hs
@@ -268,7 +308,7 @@ theorem spawnProcess_scn {σ σ' : State} {t u : Tid} {stack : List Pid} {cls : 
 theorem exec1_inv {σ : State} (t : Tid) (h : Inv σ) : Inv (exec1 σ t).1 := by
   unfold exec1
   split
-  · exact ⟨h.tasks, h.log, h.scopes, h.joins, by simp⟩
+  · exact ⟨h.tasks, h.log, h.scopes, h.joins, h.cbExcs, by simp⟩
   · rename_i T hT
     have hmem : T ∈ σ.tasks := List.mem_of_getElem? hT
     have hwf := h.tasks T hmem
@@ -279,12 +319,12 @@ theorem exec1_inv {σ : State} (t : Tid) (h : Inv σ) : Inv (exec1 σ t).1 := by
       split
       · -- push
         simp only [WF] at hwf
-        exact ⟨forall_mem_set h.tasks hwf, h.log, h.scopes, h.joins, h.noAssert⟩
+        exact ⟨forall_mem_set h.tasks hwf, h.log, h.scopes, h.joins, h.cbExcs, h.noAssert⟩
       · -- pop
         simp only [WF] at hwf
         obtain ⟨s', sv', hs, hsv, hw⟩ := hwf
         split
-        · refine ⟨forall_mem_set h.tasks (by simpa [hs, hsv] using hw), h.log, ?_, h.joins, h.noAssert⟩
+        · refine ⟨forall_mem_set h.tasks (by simpa [hs, hsv] using hw), h.log, ?_, h.joins, h.cbExcs, h.noAssert⟩
           intro x hx
           simp only [List.mem_cons] at hx
           rcases hx with rfl | hx
@@ -294,52 +334,54 @@ theorem exec1_inv {σ : State} (t : Tid) (h : Inv σ) : Inv (exec1 σ t).1 := by
           simp [hs, current] at hne
       · -- obs
         simp only [WF] at hwf
-        refine ⟨forall_mem_set h.tasks hwf.2, ?_, h.scopes, h.joins, h.noAssert⟩
+        refine ⟨forall_mem_set h.tasks hwf.2, ?_, h.scopes, h.joins,
+          cbExcs_mono (fun o ho => List.mem_cons_of_mem _ ho) h.cbExcs, h.noAssert⟩
         intro o ho hk
         simp only [List.mem_cons] at ho
         rcases ho with rfl | ho
         · exact hwf.1 hk
         · exact h.log o ho hk
       · simp only [WF] at hwf
-        exact ⟨forall_mem_set h.tasks hwf, h.log, h.scopes, h.joins, h.noAssert⟩
+        exact ⟨forall_mem_set h.tasks hwf, h.log, h.scopes, h.joins, h.cbExcs, h.noAssert⟩
       · simp only [WF] at hwf
-        exact ⟨forall_mem_set h.tasks hwf, h.log, h.scopes, h.joins, h.noAssert⟩
+        exact ⟨forall_mem_set h.tasks hwf, h.log, h.scopes, h.joins, h.cbExcs, h.noAssert⟩
       · -- callSoon
         simp only [WF] at hwf
         split
-        · exact ⟨h.tasks, h.log, h.scopes, h.joins, by simp⟩
-        · refine ⟨?_, h.log, h.scopes, h.joins, h.noAssert⟩
+        · exact ⟨h.tasks, h.log, h.scopes, h.joins, h.cbExcs, by simp⟩
+        · refine ⟨?_, h.log, h.scopes, h.joins, h.cbExcs, h.noAssert⟩
           intro T' hT'
           simp only [List.mem_append, List.mem_singleton] at hT'
           rcases hT' with hT' | rfl
           · exact forall_mem_set h.tasks hwf T' hT'
-          · exact wf_cbOps _ _ _
+          · exact wf_cbCode _ _ _ _ _
       · -- launch
         simp only [WF] at hwf
         split
-        · exact ⟨h.tasks, h.log, h.scopes, h.joins, by simp⟩
+        · exact ⟨h.tasks, h.log, h.scopes, h.joins, h.cbExcs, by simp⟩
         · rename_i σ' u hsp
           exact spawnProcess_inv (σ := { σ with tasks := σ.tasks.set t { T with code := rest } })
-            ⟨forall_mem_set h.tasks hwf, h.log, h.scopes, h.joins, h.noAssert⟩ hsp
+            ⟨forall_mem_set h.tasks hwf, h.log, h.scopes, h.joins, h.cbExcs, h.noAssert⟩ hsp
       · -- execute
         simp only [WF] at hwf
         split
-        · exact ⟨h.tasks, h.log, h.scopes, h.joins, by simp⟩
+        · exact ⟨h.tasks, h.log, h.scopes, h.joins, h.cbExcs, by simp⟩
         · rename_i σ' u hsp
           have h' := spawnProcess_inv h hsp
-          exact ⟨forall_mem_set h'.tasks hwf, h'.log, h'.scopes, h'.joins, h'.noAssert⟩
+          exact ⟨forall_mem_set h'.tasks hwf, h'.log, h'.scopes, h'.joins, h'.cbExcs, h'.noAssert⟩
       · -- inline: the child's stepping coroutine, then the handler, then the rest of the awaiting code
         simp only [WF] at hwf
         split
-        · exact ⟨h.tasks, h.log, h.scopes, h.joins, by simp⟩
+        · exact ⟨h.tasks, h.log, h.scopes, h.joins, h.cbExcs, by simp⟩
         · refine ⟨forall_mem_set h.tasks ?_, logHooks_inv _ _ _ _ _ (transitionHooks_lifecycle _ _) h.log, h.scopes,
-            h.joins, h.noAssert⟩
+            h.joins, cbExcs_mono (mem_logHooks_of_mem _ _ _ _ _) h.cbExcs, h.noAssert⟩
           apply wf_stepperOps_append
           simp only [WF]
           exact ⟨trivial, hwf⟩
       · -- handler: reached normally, or by `unwind` (then the `except` clause samples)
         simp only [WF] at hwf
-        refine ⟨forall_mem_set h.tasks hwf.2.2, ?_, h.scopes, ?_, h.noAssert⟩
+        refine ⟨forall_mem_set h.tasks hwf.2.2, ?_, h.scopes, ?_,
+          cbExcs_mono (fun o ho => by split <;> simp [ho]) h.cbExcs, h.noAssert⟩
         · intro o ho hk
           split at ho
           · simp only [List.mem_cons] at ho
@@ -354,7 +396,32 @@ theorem exec1_inv {σ : State} (t : Tid) (h : Inv σ) : Inv (exec1 σ t).1 := by
           · exact h.joins j hj
       · -- throw
         simp only [WF] at hwf
-        exact ⟨forall_mem_set h.tasks (by simpa using wf_unwind .baseException rest 0 _ _ hwf), h.log, h.scopes, h.joins, h.noAssert⟩
+        exact ⟨forall_mem_set h.tasks (by simpa using wf_unwind .baseException rest 0 _ _ hwf), h.log, h.scopes, h.joins, h.cbExcs, h.noAssert⟩
+      · -- callSoonCreator: the new task starts on this task's stack, whatever process the callback belongs to
+        simp only [WF] at hwf
+        split
+        · exact ⟨h.tasks, h.log, h.scopes, h.joins, h.cbExcs, by simp⟩
+        · split
+          · exact ⟨forall_mem_set h.tasks hwf, h.log, h.scopes, h.joins, h.cbExcs, h.noAssert⟩
+          · refine ⟨?_, h.log, h.scopes, h.joins, h.cbExcs, h.noAssert⟩
+            intro T' hT'
+            simp only [List.mem_append, List.mem_singleton] at hT'
+            rcases hT' with hT' | rfl
+            · exact forall_mem_set h.tasks hwf T' hT'
+            · exact wf_cbCode _ _ _ _ _
+      · -- excepted: `callback_excepted` samples, on the stack the task started with
+        simp only [WF] at hwf
+        refine ⟨forall_mem_set h.tasks hwf.2, ?_, h.scopes, h.joins, ?_, h.noAssert⟩
+        · intro o ho hk
+          simp only [List.mem_cons] at ho
+          rcases ho with rfl | ho
+          · simp [Kind.inScope, Hook.isOutput] at hk
+          · exact h.log o ho hk
+        · intro x hx
+          simp only [List.mem_cons] at hx
+          rcases hx with rfl | hx
+          · exact ⟨hwf.1, by simp [hwf.1]⟩
+          · exact cbExcs_mono (fun o ho => List.mem_cons_of_mem _ ho) h.cbExcs x hx
 
 theorem resumable_inv {σ σ' : State} {b : Tid} (h : Inv σ) (hr : resumable σ = some (b, σ')) : Inv σ' := by
   unfold resumable at hr
@@ -370,12 +437,12 @@ theorem resumable_inv {σ σ' : State} {b : Tid} (h : Inv σ) (hr : resumable σ
         · split at hr
           · simp only [Option.some.injEq, Prod.mk.injEq] at hr
             obtain ⟨_, rfl⟩ := hr
-            exact ⟨forall_mem_set h.tasks (h.tasks B (List.mem_of_getElem? hB)), h.log, h.scopes, h.joins, h.noAssert⟩
+            exact ⟨forall_mem_set h.tasks (h.tasks B (List.mem_of_getElem? hB)), h.log, h.scopes, h.joins, h.cbExcs, h.noAssert⟩
           · simp at hr
 
 theorem run_inv (n : Nat) {σ : State} (t : Tid) (h : Inv σ) : Inv (run n σ t) := by
   induction n generalizing σ t with
-  | zero => exact ⟨h.tasks, h.log, h.scopes, h.joins, by simp [run]⟩
+  | zero => exact ⟨h.tasks, h.log, h.scopes, h.joins, h.cbExcs, by simp [run]⟩
   | succ n ih =>
     have h1 := exec1_inv t h
     simp only [run]
@@ -396,7 +463,7 @@ theorem deliver_inv {σ : State} (t : Tid) (h : Inv σ) : Inv (deliver σ t) := 
   · exact h
   · rename_i T hT
     split
-    · refine ⟨forall_mem_set h.tasks ?_, h.log, h.scopes, h.joins, h.noAssert⟩
+    · refine ⟨forall_mem_set h.tasks ?_, h.log, h.scopes, h.joins, h.cbExcs, h.noAssert⟩
       simpa using wf_unwind .cancelled T.code 0 _ _ (h.tasks T (List.mem_of_getElem? hT))
     · exact h
 
@@ -407,34 +474,34 @@ theorem step_inv {σ : State} (e : Event) (h : Inv σ) : Inv (step σ e) := by
     split
     · exact h
     · split
-      · exact ⟨h.tasks, h.log, h.scopes, h.joins, by simp⟩
+      · exact ⟨h.tasks, h.log, h.scopes, h.joins, h.cbExcs, by simp⟩
       · rename_i T hT
         split
-        · exact ⟨forall_mem_set h.tasks (h.tasks T (List.mem_of_getElem? hT)), h.log, h.scopes, h.joins, h.noAssert⟩
-        · exact ⟨h.tasks, h.log, h.scopes, h.joins, by simp⟩
+        · exact ⟨forall_mem_set h.tasks (h.tasks T (List.mem_of_getElem? hT)), h.log, h.scopes, h.joins, h.cbExcs, h.noAssert⟩
+        · exact ⟨h.tasks, h.log, h.scopes, h.joins, h.cbExcs, by simp⟩
   | tick t =>
     simp only [step]
     split
     · exact h
     · split
       · exact run_inv _ t (deliver_inv t h)
-      · exact ⟨h.tasks, h.log, h.scopes, h.joins, by simp⟩
+      · exact ⟨h.tasks, h.log, h.scopes, h.joins, h.cbExcs, by simp⟩
   | resume t =>
     simp only [step]
     split
     · exact h
     · split
-      · exact ⟨h.tasks, h.log, h.scopes, h.joins, by simp⟩
+      · exact ⟨h.tasks, h.log, h.scopes, h.joins, h.cbExcs, by simp⟩
       · rename_i T hT
         split
-        · exact ⟨forall_mem_set h.tasks (h.tasks T (List.mem_of_getElem? hT)), h.log, h.scopes, h.joins, h.noAssert⟩
-        · exact ⟨h.tasks, h.log, h.scopes, h.joins, by simp⟩
+        · exact ⟨forall_mem_set h.tasks (h.tasks T (List.mem_of_getElem? hT)), h.log, h.scopes, h.joins, h.cbExcs, h.noAssert⟩
+        · exact ⟨h.tasks, h.log, h.scopes, h.joins, h.cbExcs, by simp⟩
   | kill t =>
     simp only [step]
     split
     · exact h
     · split
-      · exact ⟨h.tasks, h.log, h.scopes, h.joins, by simp⟩
+      · exact ⟨h.tasks, h.log, h.scopes, h.joins, h.cbExcs, by simp⟩
       · rename_i T hT
         split
         · split
@@ -443,27 +510,27 @@ theorem step_inv {σ : State} (e : Event) (h : Inv σ) : Inv (step σ e) := by
             rw [hcode] at hwf
             simp only [WF] at hwf
             obtain ⟨s', sv', hs, hsv, hw⟩ := hwf
-            refine ⟨forall_mem_set h.tasks ?_, h.log, h.scopes, h.joins, h.noAssert⟩
+            refine ⟨forall_mem_set h.tasks ?_, h.log, h.scopes, h.joins, h.cbExcs, h.noAssert⟩
             simp only [WF]
             refine ⟨s', sv', hs, hsv, ?_⟩
             exact wf_hooks_append p _ (s := s') (sv := sv') _ (transitionHooks_lifecycle _ _)
               (by simpa using wf_toHandler _ 0 _ _ hw)
-          · exact ⟨h.tasks, h.log, h.scopes, h.joins, by simp⟩
-        · exact ⟨h.tasks, h.log, h.scopes, h.joins, by simp⟩
+          · exact ⟨h.tasks, h.log, h.scopes, h.joins, h.cbExcs, by simp⟩
+        · exact ⟨h.tasks, h.log, h.scopes, h.joins, h.cbExcs, by simp⟩
   | callSoon p cb =>
     simp only [step]
     split
     · exact h
     · split
-      · exact ⟨h.tasks, h.log, h.scopes, h.joins, by simp⟩
+      · exact ⟨h.tasks, h.log, h.scopes, h.joins, h.cbExcs, by simp⟩
       · split
-        · refine ⟨?_, h.log, h.scopes, h.joins, h.noAssert⟩
+        · refine ⟨?_, h.log, h.scopes, h.joins, h.cbExcs, h.noAssert⟩
           intro T hT
           simp only [List.mem_append, List.mem_singleton] at hT
           rcases hT with hT | rfl
           · exact h.tasks T hT
-          · exact wf_cbOps _ _ _
-        · exact ⟨h.tasks, h.log, h.scopes, h.joins, by simp⟩
+          · exact wf_cbCode _ _ _ _ _
+        · exact ⟨h.tasks, h.log, h.scopes, h.joins, h.cbExcs, by simp⟩
 
 theorem runEvents_inv {σ : State} (es : List Event) (h : Inv σ) : Inv (runEvents σ es) := by
   induction es generalizing σ with
@@ -476,12 +543,12 @@ theorem initTop_inv {σ : State} (top : List Nat) (h : Inv σ) : Inv (initTop σ
   | cons c top ih =>
     simp only [initTop]
     split
-    · exact ⟨h.tasks, h.log, h.scopes, h.joins, by simp⟩
+    · exact ⟨h.tasks, h.log, h.scopes, h.joins, h.cbExcs, by simp⟩
     · rename_i σ' u hsp
       exact ih (spawnProcess_inv h hsp)
 
 theorem init_inv (scn : Scenario) (top : List Nat) : Inv (init scn top) :=
-  initTop_inv top ⟨by simp, by simp, by simp, by simp, by simp⟩
+  initTop_inv top ⟨by simp, by simp, by simp, by simp, by simp, by simp⟩
 
 /-- every reachable state satisfies the invariant, for every scenario and every order of ticks -/
 theorem reachable_inv (scn : Scenario) (top : List Nat) (es : List Event) : Inv (runEvents (init scn top) es) :=
@@ -536,6 +603,12 @@ theorem exec1_frame (σ : State) (t : Tid) : Frame σ (exec1 σ t).1 t := by
         · exact ⟨Nat.le_refl _, fun _ _ _ => rfl, Or.inl rfl⟩
         · exact ⟨by simp, fun i _ hne => by simp [List.getElem?_set_ne (Ne.symm hne)], Or.inl rfl⟩
       · exact ⟨by simp, fun i _ hne => by simp [List.getElem?_set_ne (Ne.symm hne)], Or.inl rfl⟩
+      · exact ⟨by simp, fun i _ hne => by simp [List.getElem?_set_ne (Ne.symm hne)], Or.inl rfl⟩
+      · split
+        · exact ⟨Nat.le_refl _, fun _ _ _ => rfl, Or.inl rfl⟩
+        · split
+          · exact ⟨by simp, fun i _ hne => by simp [List.getElem?_set_ne (Ne.symm hne)], Or.inl rfl⟩
+          · exact ⟨by simp, fun i hi hne => getElem?_set_append_ne _ _ _ _ _ hi hne, Or.inl rfl⟩
       · exact ⟨by simp, fun i _ hne => by simp [List.getElem?_set_ne (Ne.symm hne)], Or.inl rfl⟩
 
 theorem resumable_frame {σ σ' : State} {b : Tid} (hr : resumable σ = some (b, σ')) :
